@@ -173,6 +173,46 @@ fn scenario(name: &str, n: usize) -> serde_json::Value {
                 }
             }
         },
+        "prefix_decode_fresh_thread" => {
+            // on a FRESH thread (its per-thread decode state untouched): a message carrying two senders is decoded as a type that only
+            // reads the first one (version skew; bincode accepts trailing bytes).  The second sender must be released with the message,
+            // not parked anywhere for the life of the thread: its channel reports 'disconnected' while the thread is still alive
+            use ipc_channel::ipc::{IpcError, TryRecvError};
+            #[derive(serde::Serialize, serde::Deserialize)]
+            struct OnlyFirst(IpcSender<u32>);
+            for _ in 0..n.min(4) {
+                let h = std::thread::spawn(|| {
+                    let mut out: Vec<String> = Vec::new();
+                    let (tx, rx) = ipc::channel::<(IpcSender<u32>, IpcSender<u32>)>().unwrap();
+                    let (a, ar) = ipc::channel::<u32>().unwrap();
+                    let (b, br) = ipc::channel::<u32>().unwrap();
+                    tx.send((a, b)).unwrap();
+                    let rx2 = rx.to_opaque().to::<OnlyFirst>();
+                    match rx2.recv() {
+                        Ok(OnlyFirst(first)) => {
+                            if first.send(5).is_err() || !matches!(ar.try_recv(), Ok(5)) {
+                                out.push("the first embedded sender did not arrive as the first".into());
+                            }
+                            drop(first);
+                        },
+                        Err(e) => out.push(format!("decoding a prefix of the value failed: {:?}", e)),
+                    }
+                    match br.try_recv() {
+                        Err(TryRecvError::IpcError(IpcError::Disconnected)) => {},
+                        other => out.push(format!(
+                            "a sender that arrived with a message but was not read by the (shorter) type the message was decoded as is still alive after the message was dropped: its channel reports {:?}",
+                            other.map(|_| "a message")
+                        )),
+                    }
+                    out
+                });
+                if let Ok(v) = h.join() {
+                    notes.extend(v);
+                } else {
+                    notes.push("the thread panicked".into());
+                }
+            }
+        },
         "send_closed_probe" => {
             // a refused send (receiver gone) that embedded a sender, a receiver and a region, the DESTINATION sender staying alive: what the
             // value embedded is released with the failed send - the embedded sender's channel reports 'disconnected', sends to the
